@@ -51,11 +51,18 @@ func H_C08_e2e() {
 		observe(stream.Context())
 		return nil
 	}
-	srv := zzNewServer("srv", impl, map[string]grpc.StreamHandler{"BidiStream": sh})
+	// stats=1: a stats handler is installed on both sides (the RPC's context then passes through TagRPC)
+	var sopts []ServerOption
+	var copts []DialOption
+	if vfParam("stats", 0) == 1 {
+		sopts = append(sopts, StatsHandler(newZZRecStats()))
+		copts = append(copts, WithStatsHandler(newZZRecStats()))
+	}
+	srv := zzNewServer("srv", impl, map[string]grpc.StreamHandler{"BidiStream": sh}, sopts...)
 	c2s := make(chan *Rpc, 2)
 	s2c := make(chan *Rpc, 2)
 	go func() { srv.Serve(context.Background(), NewGoatOverChannel(c2s, s2c)) }()
-	cc := NewClientConn(NewGoatOverChannel(s2c, c2s), "cli", "srv")
+	cc := NewClientConn(NewGoatOverChannel(s2c, c2s), "cli", "srv", copts...)
 
 	v1, v2, b1 := "", "", ""
 	ctx := context.Background()
